@@ -896,9 +896,24 @@ func boundVertices(it *Interp, s *State, kind string, v AV, ctx *boundCtx) {
 			}
 		}
 	case "Bound":
+		// a bound member counts with its corners only on the paths where it is not empty
 		if st, ok := v.(StructV); ok && len(st.Fields) == 2 {
-			addPoint(st.Fields[0])
-			addPoint(st.Fields[1])
+			var ids [4]int
+			n := 0
+			for i, f := range st.Fields {
+				if a, ok := f.(ArrV); ok && len(a.Elems) == 2 {
+					for k, e := range a.Elems {
+						if id, ok := atomOf(floatTerm(it, e)); ok {
+							ids[2*i+k] = id
+							n++
+						}
+					}
+				}
+			}
+			if n == 4 {
+				ctx.boxes = append(ctx.boxes, ids)
+				ctx.boxAV = append(ctx.boxAV, v)
+			}
 		}
 	}
 }
@@ -920,9 +935,8 @@ func boundHyps(thorough bool) []*GeomHyp {
 	}
 	if thorough {
 		hs = append(hs, pts("MultiPoint", 4), pts("LineString", 4),
-			of("MultiLineString", pts("LineString", 2), pts("LineString", 2)),
-			of("MultiLineString", pts("LineString", 1), pts("LineString", 1), pts("LineString", 1)),
-			of("MultiPolygon", of("Polygon", pts("Ring", 2), pts("Ring", 2)), of("Polygon", pts("Ring", 2))),
+			of("MultiLineString", pts("LineString", 1), pts("LineString", 2)),
+			of("MultiPolygon", of("Polygon", pts("Ring", 1), pts("Ring", 2)), of("Polygon", pts("Ring", 2))),
 			of("Collection", &GeomHyp{Kind: "Point"}, &GeomHyp{Kind: "Bound"}),
 			of("Collection", of("MultiLineString", pts("LineString", 0)), &GeomHyp{Kind: "Point"}))
 	}
@@ -990,17 +1004,51 @@ func boundSpecs(thorough bool) []composeSpec {
 			return "there is no vertex but the bound is not the empty bound"
 		}
 		reachFrom := g.reach
-		// elems: the coordinates a min/max expression selects from
-		var elems func(id int, fn string, out map[int]bool) bool
-		elems = func(id int, fn string, out map[int]bool) bool {
-			if args, ok := it.atomArgs[id]; ok {
-				if it.atomFn[id] != fn {
-					return false
-				}
-				return elems(args[0], fn, out) && elems(args[1], fn, out)
+		// leaves: the coordinates a (possibly mixed) min/max expression selects from
+		var leaves func(id int, out map[int]bool)
+		leaves = func(id int, out map[int]bool) {
+			if args, ok := it.atomArgs[id]; ok && (it.atomFn[id] == "Min" || it.atomFn[id] == "Max") {
+				leaves(args[0], out)
+				leaves(args[1], out)
+				return
 			}
 			out[id] = true
-			return true
+		}
+		// bounded(id, c, lower): the path establishes id <= c (lower) / id >= c: by its order facts about id
+		// itself, or through the lattice reading of min and max (min(a,b) <= c when either is, max(a,b) <= c when
+		// both are, and dually)
+		reachMemo := map[[2]int]map[int]bool{}
+		var bounded func(id, c int, lower bool) bool
+		bounded = func(id, c int, lower bool) bool {
+			key := [2]int{id, 0}
+			if lower {
+				key[1] = 1
+			}
+			r, ok := reachMemo[key]
+			if !ok {
+				r = reachFrom(id, lower)
+				reachMemo[key] = r
+			}
+			if id == c || r[c] {
+				return true
+			}
+			args, ok := it.atomArgs[id]
+			if !ok {
+				return false
+			}
+			switch it.atomFn[id] {
+			case "Min":
+				if lower {
+					return bounded(args[0], c, lower) || bounded(args[1], c, lower)
+				}
+				return bounded(args[0], c, lower) && bounded(args[1], c, lower)
+			case "Max":
+				if lower {
+					return bounded(args[0], c, lower) && bounded(args[1], c, lower)
+				}
+				return bounded(args[0], c, lower) || bounded(args[1], c, lower)
+			}
+			return false
 		}
 		axis := []string{"x", "y"}
 		for k := 0; k < 2; k++ {
@@ -1013,26 +1061,23 @@ func boundSpecs(thorough bool) []composeSpec {
 				inSet[c] = true
 			}
 			for side, e := range []AV{mn.Elems[k], mx.Elems[k]} {
-				fn, name := "Min", "Min"
+				name := "Min"
 				if side == 1 {
-					fn, name = "Max", "Max"
+					name = "Max"
 				}
 				id, ok := atomOf(floatTerm(it, e))
 				if !ok {
 					return fmt.Sprintf("%s[%d] is %s, not a selection among the vertices' %s coordinates", name, k, avString(e), axis[k])
 				}
 				sel := map[int]bool{}
-				if !elems(id, fn, sel) {
-					return fmt.Sprintf("%s[%d] mixes min and max", name, k)
-				}
+				leaves(id, sel)
 				for c := range sel {
 					if !inSet[c] {
 						return fmt.Sprintf("%s[%d] may take a value that is not the %s coordinate of a vertex the bound must enclose (the box is not tight)", name, k, axis[k])
 					}
 				}
-				reach := reachFrom(id, side == 0)
 				for _, c := range coords {
-					if !reach[c] {
+					if !bounded(id, c, side == 0) {
 						rel := "<="
 						if side == 1 {
 							rel = ">="
@@ -1382,5 +1427,238 @@ func lowerCentroidSpecs(thorough bool) []composeSpec {
 				return ""
 			},
 		},
+	}
+}
+
+// ---------------------------------------------------------------------------
+// shoelace: Ring.Orientation and planar.ringCentroidArea against the cyclic
+// polynomial (identities of rational functions over the reals)
+
+type shoelaceCtx struct {
+	pts [][2]*fterm
+	ids []string
+}
+
+// cyclicShoelace: 2A = sum over the implicitly closed ring of x_i*y_{i+1} - x_{i+1}*y_i, and the two
+// first-moment sums (x_i + x_{i+1}) * cross_i, (y_i + y_{i+1}) * cross_i.
+func cyclicShoelace(pts [][2]*fterm) (twoA, mx, my *fterm) {
+	twoA, mx, my = termConst(0), termConst(0), termConst(0)
+	n := len(pts)
+	for i := 0; i < n; i++ {
+		a, b := pts[i], pts[(i+1)%n]
+		cr := termAdd(termMul(a[0], b[1]), termMul(b[0], a[1]), -1)
+		twoA = termAdd(twoA, cr, 1)
+		mx = termAdd(mx, termMul(termAdd(a[0], b[0], 1), cr), 1)
+		my = termAdd(my, termMul(termAdd(a[1], b[1], 1), cr), 1)
+	}
+	return
+}
+
+func shoelaceSpecs(which string) func(bool) []composeSpec {
+	return func(thorough bool) []composeSpec {
+		maxN := 5
+		if thorough {
+			maxN = 6
+		}
+		var cases []composeCase
+		for n := 0; n <= maxN; n++ {
+			for _, closed := range []bool{false, true} {
+				if closed && n < 4 {
+					continue
+				}
+				n, closed := n, closed
+				lab := fmt.Sprintf("%d vertices", n)
+				if closed {
+					lab += ", last = first"
+				}
+				cases = append(cases, composeCase{lab, func(it *Interp, s *State) ([]AV, interface{}) {
+					r := it.buildGeom(s, pts("Ring", n)).(SliceV)
+					if closed {
+						arr := s.heap[r.Arr].(ArrV)
+						arr.Elems[n-1] = arr.Elems[0]
+						s.heap[r.Arr] = arr
+					}
+					ctx := &shoelaceCtx{}
+					for _, e := range membersOf(s, r) {
+						ctx.pts = append(ctx.pts, pointTerms(it, e))
+						ctx.ids = append(ctx.ids, identString(e))
+					}
+					return []AV{r}, ctx
+				}})
+			}
+		}
+		if which == "orientation" {
+			return []composeSpec{{
+				entry: "orb.(Ring).Orientation", terms: true, cases: cases,
+				desc: "the orientation is the sign of the shoelace sum over the implicitly closed ring (x_i*y_{i+1} - x_{i+1}*y_i over every consecutive pair and the closing pair): 1 when the path establishes it positive, -1 negative, 0 zero; 0 for fewer than 3 vertices.  Reversal negates that sum, so with Reverse reversing the order (judged beside it) reversing a ring negates its orientation",
+				judge: func(it *Interp, cx interface{}, st *State) string {
+					ctx := cx.(*shoelaceCtx)
+					res, ok := st.result[0].(IntV)
+					if !ok || !res.Known {
+						return "the orientation returned is not decided on this path"
+					}
+					v := int64(int8(res.V))
+					if len(ctx.pts) < 3 {
+						if v != 0 {
+							return fmt.Sprintf("fewer than 3 vertices but the orientation is %d", v)
+						}
+						return ""
+					}
+					twoA, _, _ := cyclicShoelace(ctx.pts)
+					if twoA.isZero() {
+						// the closing point makes every term cancel (3 distinct vertices are needed for area)
+						if v != 0 {
+							return "the shoelace sum is identically zero but the orientation is not 0"
+						}
+						return ""
+					}
+					g := pathOrderTerms(it, st)
+					zero := termConst(0)
+					switch {
+					case v == 1 && g.less(zero, twoA), v == -1 && g.less(twoA, zero), v == 0 && g.leq(zero, twoA) && g.leq(twoA, zero):
+						return ""
+					}
+					return fmt.Sprintf("orientation %d is returned, but nothing on this path establishes that sign for the shoelace sum over all %d vertices (a vertex or the closing pair may be left out of the sum)", v, len(ctx.pts))
+				},
+			}}
+		}
+		return []composeSpec{{
+			entry: "planar.ringCentroidArea", terms: true, cases: cases,
+			desc: "the area is half the shoelace sum over the implicitly closed ring, and the centroid is the first-moment sum over 3 times that sum (the area-weighted mean); when the path takes the sum to be zero the area is 0 and the first vertex is returned",
+			judge: func(it *Interp, cx interface{}, st *State) string {
+				ctx := cx.(*shoelaceCtx)
+				if len(st.result) != 2 {
+					return "two results are expected"
+				}
+				area := floatTerm(it, st.result[1])
+				if area == nil {
+					return "the area returned is not a followed quantity"
+				}
+				if len(ctx.pts) == 0 {
+					if !area.isZero() {
+						return "no vertex but the area is not 0"
+					}
+					return ""
+				}
+				twoA, mx, my := cyclicShoelace(ctx.pts)
+				g := pathOrderTerms(it, st)
+				zero := termConst(0)
+				if twoA.isZero() || g.leq(zero, twoA) && g.leq(twoA, zero) {
+					if !area.isZero() {
+						return "the path takes the shoelace sum to be zero but the area returned is not 0"
+					}
+					if identString(st.result[0]) != ctx.ids[0] {
+						return "the shoelace sum is zero on this path but the point returned is not the first vertex"
+					}
+					return ""
+				}
+				if !termEqual(termAdd(area, area, 1), twoA) {
+					return fmt.Sprintf("the area returned is not half the shoelace sum over all %d vertices and the closing pair", len(ctx.pts))
+				}
+				c := pointTerms(it, st.result[0])
+				three := termConst(3)
+				for k, m := range []*fterm{mx, my} {
+					if c[k] == nil || !termEqual(termMul(c[k], termMul(three, twoA)), m) {
+						return fmt.Sprintf("centroid[%d] is not the area-weighted mean (first-moment sum / (3 * shoelace sum))", k)
+					}
+				}
+				return ""
+			},
+		}}
+	}
+}
+
+// ---------------------------------------------------------------------------
+// point-segment distance: the clamp of the projection parameter and the three
+// formulas, as identities of rational functions
+
+type segDistCtx struct {
+	a, b, p [2]*fterm
+	same    bool
+}
+
+func segmentDistanceSpecs(thorough bool) []composeSpec {
+	mkCases := func() []composeCase {
+		return []composeCase{
+			{"any segment, any point", func(it *Interp, s *State) ([]AV, interface{}) {
+				a, b, p := freePointAV(it), freePointAV(it), freePointAV(it)
+				return []AV{a, b, p}, &segDistCtx{a: pointTerms(it, a), b: pointTerms(it, b), p: pointTerms(it, p)}
+			}},
+			{"both ends the same point", func(it *Interp, s *State) ([]AV, interface{}) {
+				a, p := freePointAV(it), freePointAV(it)
+				return []AV{a, a, p}, &segDistCtx{a: pointTerms(it, a), b: pointTerms(it, a), p: pointTerms(it, p), same: true}
+			}},
+		}
+	}
+	sq := func(p, q [2]*fterm) *fterm {
+		dx, dy := termAdd(p[0], q[0], -1), termAdd(p[1], q[1], -1)
+		return termAdd(termMul(dx, dx), termMul(dy, dy), 1)
+	}
+	judge := func(it *Interp, cx interface{}, st *State) string {
+		ctx := cx.(*segDistCtx)
+		res := floatTerm(it, st.result[0])
+		if res == nil {
+			return "the distance returned is not a followed quantity on this path (a division by a quantity that is zero here?)"
+		}
+		toA, toB := sq(ctx.p, ctx.a), sq(ctx.p, ctx.b)
+		if ctx.same {
+			if !termEqual(res, toA) {
+				return "the segment has no length, but the result is not the squared distance to its one point"
+			}
+			return ""
+		}
+		d := [2]*fterm{termAdd(ctx.b[0], ctx.a[0], -1), termAdd(ctx.b[1], ctx.a[1], -1)}
+		dd := termAdd(termMul(d[0], d[0]), termMul(d[1], d[1]), 1)
+		dot := termAdd(termMul(termAdd(ctx.p[0], ctx.a[0], -1), d[0]), termMul(termAdd(ctx.p[1], ctx.a[1], -1), d[1]), 1)
+		T := termDiv(dot, dd)
+		g := pathOrderTerms(it, st)
+		zero, one := termConst(0), termConst(1)
+		// the path that took both differences to be zero
+		if g.leq(d[0], zero) && g.leq(zero, d[0]) && g.leq(d[1], zero) && g.leq(zero, d[1]) {
+			if termEqual(res, toA) || termEqual(res, toB) {
+				return ""
+			}
+			return "the path takes the segment to have no length, but the result is not the squared distance to its end"
+		}
+		if T == nil {
+			return "internal: no projection parameter"
+		}
+		foot := [2]*fterm{termAdd(ctx.a[0], termMul(d[0], T), 1), termAdd(ctx.a[1], termMul(d[1], T), 1)}
+		switch {
+		case termEqual(res, toB) && g.leq(one, T),
+			termEqual(res, toA) && g.leq(T, zero),
+			termEqual(res, sq(ctx.p, foot)) && g.leq(zero, T) && g.leq(T, one):
+			return ""
+		}
+		return "the result is not the squared distance to the end the path's comparisons of t = ((p-a).(b-a))/|b-a|^2 select (b when t >= 1, a when t <= 0), nor to the foot a + t(b-a) with 0 <= t <= 1 established"
+	}
+	desc := "the squared distance from a point to a segment: to end b when the projection parameter t = ((p-a).(b-a))/|b-a|^2 is at least 1, to end a when it is at most 0, otherwise to the foot a + t(b-a); to the one point when the segment has no length"
+	two := func() []composeCase {
+		return []composeCase{{"any two points", func(it *Interp, s *State) ([]AV, interface{}) {
+			a, b := freePointAV(it), freePointAV(it)
+			return []AV{a, b}, &segDistCtx{a: pointTerms(it, a), b: pointTerms(it, b)}
+		}}}
+	}
+	return []composeSpec{
+		{entry: "planar.segmentDistanceFromSquared", terms: true, cases: mkCases(), desc: desc, judge: judge},
+		{entry: "planar.DistanceFromSegmentSquared", terms: true, cases: mkCases(), desc: desc, judge: judge},
+		{entry: "planar.DistanceSquared", terms: true, cases: two(), desc: "the sum of the squared coordinate differences",
+			judge: func(it *Interp, cx interface{}, st *State) string {
+				ctx := cx.(*segDistCtx)
+				if res := floatTerm(it, st.result[0]); res == nil || !termEqual(res, sq(ctx.a, ctx.b)) {
+					return "the result is not (ax-bx)^2 + (ay-by)^2"
+				}
+				return ""
+			}},
+		{entry: "planar.Distance", terms: true, cases: two(), desc: "the square root of the sum of the squared coordinate differences",
+			judge: func(it *Interp, cx interface{}, st *State) string {
+				ctx := cx.(*segDistCtx)
+				res := floatTerm(it, st.result[0])
+				id, ok := atomOf(res)
+				if !ok || it.atomFn[id] != "sqrt" || !termEqual(it.absOf[id], sq(ctx.a, ctx.b)) {
+					return "the result is not sqrt((ax-bx)^2 + (ay-by)^2)"
+				}
+				return ""
+			}},
 	}
 }
